@@ -2017,6 +2017,17 @@ def parse_string_or_identifier(token: TokenT) -> Identifier:
     )
 
 
+def string_or_identifier_str(name: str) -> str:
+    """Return _name_ as `parse_string_or_identifier` must find it written.
+
+    A name that is not a single word, or is a word reserved by the lexer, is
+    written as a string literal.
+    """
+    if RE_PROPERTY.fullmatch(name) and name not in RESERVED_WORDS:
+        return name
+    return _string_repr(name)
+
+
 def parse_string_or_path(token: TokenT) -> StringLiteral | Path:
     """Parse _token_ as a string literal or a path.
 
